@@ -1,4 +1,6 @@
 """F-C04-3 / F-C04-2: BladeStiff1D flange mass kernel (run with /venv/bin/python; not a check)"""
+import os, sys
+sys.path.insert(0, os.getcwd())
 import numpy as np
 from compmech.stiffener.models import bladestiff1d_clt_donnell_bardell as mod
 from compmech.sparse import make_symmetric
